@@ -23,7 +23,8 @@ PLAN = {'quick': {'gen': 8}, 'thorough': {'gen': 16, 'tests': 1, 'docs': 1}}
 REQUIRED_BUCKETS = ['qe:scalar', 'qe:vector', 'qe:spectrum', 'qe:offset-table', 'unit:nm', 'unit:um', 'unit:m', 'unit:angstrom', 'bayer:k=1',
                     'bayer:k=2', 'bayer:k=3', 'bayer:k=4', 'bayer:os=1', 'bayer:os=2', 'bayer:os>=3', 'bayer:nonsquare',
                     'bayer:channels', 'bayer:spectrum-qe', 'bayer:unit!=nm', 'gain:scalar', 'gain:poly', 'gain:pixel', 'gain:pixel-poly', 'adc:negative',
-                    'adc:saturated', 'adc:dtype', 'adc:warn', 'adc:max==capacity', 'adc:small-int-frame', 'bayer:cube-not-float64']
+                    'adc:saturated', 'adc:dtype', 'adc:warn', 'adc:max==capacity', 'adc:small-int-frame', 'bayer:cube-not-float64', 'adc:beyond-dtype-range', 'adc:capacity=0',
+                    'qe:narrow-qe-vector', 'qe:table-ends-other-unit', 'qe:single-wavelength']
 REQUIRED_ANCHORS = ['probe:collect_charge', 'probe:collect_charge_bayer', 'probe:adc', 'anchor:qe_asarray',
                     'anchor:format_bayer_string']
 REQUIRED_ORACLES = ['charge=sum', 'charge:qe-forms', 'charge:linear', 'bayer=pattern', 'bayer:equal-qe=mono',
@@ -145,7 +146,7 @@ def adc_oracle(ctx, args, kwargs, result, exc, pre):
               "adc modified the caller's electron frame", wit)
     e = img0.astype(rm.LD)
     sat = a['saturation_capacity']
-    if sat:
+    if sat is not None:             # (a capacity of 0 is a capacity: everything is clipped to it)
         e = np.minimum(e, rm.LD(sat))
     p = poly_ld(gain, e)
     ref = np.maximum(np.floor(p), 0)
@@ -158,8 +159,9 @@ def adc_oracle(ctx, args, kwargs, result, exc, pre):
         ctx.check(got.dtype == np.dtype(a['dtype']), 'adc:dtype', 'adc|dtype', 'adc did not return the requested output type', wit)
         info = np.iinfo(got.dtype) if np.issubdtype(got.dtype, np.integer) else None
         if info is not None and float(ref.max()) > info.max:
-            ctx.skip('adc: DN beyond the range of the requested integer type')
-            return
+            # a converter rails at full scale: the output stays non-decreasing in the input (it does not wrap around)
+            ref = np.minimum(ref, rm.LD(info.max))
+            ctx.bucket('adc:beyond-dtype-range')
     diff = got.astype(rm.LD) - ref
     bad = (diff != 0) & ~(frac_tie & (np.abs(diff) <= 1))
     if bad.any():
@@ -273,6 +275,47 @@ def workload(ctx, lentil):
         except Exception as e:
             ctx.check(False, 'charge:qe-forms', f'offset-table|raises={type(e).__name__}', str(e), desc)
 
+    # ---- efficiencies in the types and at the wavelengths users hand over: a 0/1 band-pass vector held as bool / uint8 together with an
+    # integer photon cube; a table sampled exactly AT its own end wavelengths written in another unit; a single wavelength
+    for i in range(max(12, n // 6)):
+        nw = int(rng.integers(2, 8))
+        wave_nm = 350.0 + 50.0 * np.arange(nw) + float(rng.integers(0, 40))
+        shape = (2 * int(rng.integers(1, 5)), 2 * int(rng.integers(1, 5)))
+        kindq = i % 3
+        desc = {'charge': ['narrow-qe-vector', 'table-ends-other-unit', 'single-wavelength'][kindq], 'nw': nw}
+        ctx.case(desc, [f'qe:{desc["charge"]}'])
+        try:
+            if kindq == 0:
+                cdt, qdt = [(np.uint16, bool), (np.uint8, np.uint8), (np.uint16, np.uint8), (np.int16, bool)][(i // 3) % 4]
+                cube = rng.integers(int(np.iinfo(cdt).max * 0.4), int(np.iinfo(cdt).max * 0.9), size=(nw,) + shape).astype(cdt)
+                band = (rng.random(nw) < 0.7); band[0] = True; band[-1] = True
+                out = D.collect_charge(cube, wave_nm, band.astype(qdt))                   # probe decides (float reference)
+                D.collect_charge_bayer(cube, wave_nm, band.astype(qdt), band.astype(qdt), band.astype(qdt), 'RGGB')
+                ref = np.tensordot(band.astype(float), cube.astype(float), axes=(0, 0))
+                ctx.close('charge:qe-forms', np.asarray(out, float), ref, 1e-12, 'charge|narrow-qe-vector',
+                          'an efficiency vector of boolean / small-integer type gives another charge than the same numbers as floats',
+                          dict(desc, cube=np.dtype(cdt).name, qe=np.dtype(qdt).name), scale=float(ref.max()) + 1e-300)
+            elif kindq == 1:
+                unit = ['um', 'm', 'angstrom'][(i // 3) % 3]
+                div = {'um': 1e3, 'm': 1e9, 'angstrom': 0.1}[unit]
+                qtab = rng.uniform(0.2, 0.9, size=nw)
+                spec = R.Spectrum(wave_nm, qtab, waveunit='nm')
+                cube = rng.uniform(1, 100, size=(nw,) + shape)
+                out = D.collect_charge(cube, wave_nm / div, spec, waveunit=unit)      # slices exactly at the tabulated wavelengths
+                ref = np.tensordot(qtab, cube, axes=(0, 0))
+                ctx.close('charge:qe-forms', np.asarray(out, float), ref, 1e-9, 'charge|table-ends-other-unit',
+                          'a QE table sampled exactly at its own wavelengths, written in another unit, loses an end slice', dict(desc, unit=unit),
+                          scale=float(ref.max()) + 1e-300)
+            else:
+                img2 = rng.uniform(1, 100, size=shape)
+                spec = R.Spectrum([400., 900.], [0.5, 0.5])
+                o_s = D.collect_charge(img2, 600, spec)
+                o_v = D.collect_charge(img2, 600, 0.5)
+                ctx.close('charge:qe-forms', np.asarray(o_s, float), np.asarray(o_v, float), 1e-12, 'charge|single-wavelength|spectrum',
+                          'a single wavelength with a spectrum efficiency differs from the scalar efficiency', desc, scale=float(img2.max()))
+        except Exception as e:
+            ctx.check(False, 'charge:qe-forms', f'{desc["charge"]}|raises={type(e).__name__}', str(e), desc)
+
     # ---- collect_charge_bayer ------------------------------------------------------------------------------
     for i in range(n):
         k = int(rng.integers(1, 5))
@@ -366,8 +409,13 @@ def workload(ctx, lentil):
                 ctx.bucket('adc:max==capacity')
             else:
                 sat = None
-        warn = bool(rng.random() < 0.5) or (sat is not None and i % 5 == 1)
+        if i % 23 == 7:
+            sat = 0 if i % 2 else 0.0                    # degenerate but legal: nothing can be held
+            ctx.bucket('adc:capacity=0')
+        warn = bool(rng.random() < 0.5) or (sat is not None and i % 5 == 1) or i % 23 == 7
         dtype = [None, np.uint16, np.int32, np.uint32, np.float32, np.int64][int(rng.integers(0, 6))]
+        if i % 11 == 4:
+            dtype = [np.uint8, np.int8, np.uint16][i % 3]      # a converter with fewer bits than the signal needs
         saturated = sat is not None and bool((e > sat).any())
         desc = {'adc': form, 'order': order, 'shape': list(shape), 'sat': sat, 'warn': warn, 'dtype': str(dtype),
                 'h': probe.fp_array(e)[:8]}
